@@ -465,7 +465,7 @@ func ops() []op {
 			}
 		}
 	}
-	os = append(os, op{Kind: "checkpoint", Plan: 0}, op{Kind: "checkpoint", Plan: 1}, op{Kind: "copy"})
+	os = append(os, op{Kind: "checkpoint", Plan: 0}, op{Kind: "checkpoint", Plan: 1}, op{Kind: "copy"}, op{Kind: "copy", Plan: 1}, op{Kind: "copy", Plan: 2})
 	return os
 }
 
@@ -498,6 +498,27 @@ func apply(hist []op, local string) (d migrate.Dir, err error) {
 				return nil, ferr
 			}
 			m := &migrate.MemDir{}
+			switch {
+			case o.Plan == 1 && len(files) > 1:
+				// the target holds the first file already (written and hashed), the others are copied in.
+				if err = m.WriteFile(files[0].Name(), files[0].Bytes()); err == nil {
+					var sum migrate.HashFile
+					if sum, err = m.Checksum(); err == nil {
+						err = migrate.WriteSumFile(m, sum)
+					}
+				}
+				files = files[1:]
+			case o.Plan == 2:
+				// the caller hands the files over newest first.
+				rev := make([]migrate.File, len(files))
+				for i, f := range files {
+					rev[len(files)-1-i] = f
+				}
+				files = rev
+			}
+			if err != nil {
+				break
+			}
 			err = m.CopyFiles(files)
 			if local == "" {
 				cd = m
@@ -549,6 +570,8 @@ func specials() []Snap {
 		mk(map[string]string{"1_a.sql": "A;\n", "2_b.sql": "A;\n", "3_c.sql": "A;\n"}),
 		mk(map[string]string{"1_a.sql": "", "2_b.sql": "B;\n"}),
 		mk(map[string]string{"1_a.sql": "A;\n", "notes.txt": "hello"}),
+		// a file name that holds the text separating a name from its hash in a sum line.
+		mk(map[string]string{"1_a.sql": "A;\n", "2_h1:x.sql": "B;\n"}),
 	}
 }
 
@@ -557,7 +580,7 @@ func Run(r *report.Run) {
 	if r.Tier == "thorough" {
 		depth, tamperDepth, full = 4, 2, true
 	}
-	r.Rule = fmt.Sprintf("(1) BFS to depth %d over the writer alphabet {Planner.WritePlan x 6 formatters x 2 plans x {new version, overwrite version 1}, WriteCheckpoint x 2 plans, MemDir.CopyFiles} from the empty MemDir (and LocalDir to depth 2); canonical state = sorted (name, bytes) with 14-digit timestamps masked; invariant Validate(dir)==nil in every state. (2) for every reached state of depth<=%d with <=3 migration files plus 8 hand-built states (sum-ignored files first/middle/last, awkward names, equal contents, empty file, non-migration file): the complete single-edit neighbourhood - every byte position of every file and of atlas.sum x {substitute (%s), delete, insert 4 values}, file add before/between/after x contents (new, sum-ignored, empty, copy of each file), remove, rename (order preserving / changing / out of *.sql), toggle the ignore directive, swap contents, move a tail across a file boundary, sum line remove/dup/swap, bytes moved between a name and its hash in a sum line, sum removed/emptied - judged by refSum; for directories holding a checkpoint a material edit must also make Executor.ExecuteTo(v) fail with a checksum error for every version v that precedes the checkpoint. (3) BFS over CLI histories on a real directory with the alphabet {migrate new, migrate diff to 2 desired schemas (SQLite dev db), migrate hash, hand edits: append to newest file, remove oldest file, add a file, drop the last sum line, rename newest file}: a writer command must refuse a directory whose sum does not match and leave it untouched, must leave a valid directory otherwise; in every reached state `migrate validate` and `migrate apply` (fresh database) must succeed iff the directory was not edited since atlas last wrote or re-hashed it, and the CLI must agree with migrate.Validate(LocalDir); an edited directory handed over as a state source (`schema inspect --url file://dir`, absolute and relative URL) must be refused too; (4) `migrate import` from hand-written source directories of the 5 third-party formats x version sets (digit boundaries 9/10/11, 1/2/10, zero-padded; flyway also with a repeatable, a baseline and an undo file, and with a file in a sub-directory of a directory that lives below a hidden directory): the written directory must validate and hold the statement of every step exactly once; non-trivial = tampered directory the model calls material; distinct = (state, edit)", depth, tamperDepth, map[bool]string{false: "bit flip, newline, space", true: "all 255 other values"}[full])
+	r.Rule = fmt.Sprintf("(1) BFS to depth %d over the writer alphabet {Planner.WritePlan x 6 formatters x 2 plans x {new version, overwrite version 1}, WriteCheckpoint x 2 plans, MemDir.CopyFiles into an empty MemDir / into one that holds the first file / newest file first} from the empty MemDir (and LocalDir to depth 2); canonical state = sorted (name, bytes) with 14-digit timestamps masked; invariant Validate(dir)==nil in every state. (2) for every reached state of depth<=%d with <=3 migration files plus 9 hand-built states (sum-ignored files first/middle/last, awkward names (a blank, a second '.sql', the text 'h1:'), equal contents, empty file, non-migration file): the complete single-edit neighbourhood - every byte position of every file and of atlas.sum x {substitute (%s), delete, insert 4 values}, file add before/between/after x contents (new, sum-ignored, empty, copy of each file), remove, rename (order preserving / changing / out of *.sql), toggle the ignore directive, swap contents, move a tail across a file boundary, sum line remove/dup/swap, bytes moved between a name and its hash in a sum line, sum removed/emptied - judged by refSum; for directories holding a checkpoint a material edit must also make Executor.ExecuteTo(v) fail with a checksum error for every version v that precedes the checkpoint. (3) BFS over CLI histories on a real directory with the alphabet {migrate new, migrate diff to 2 desired schemas (SQLite dev db), migrate hash, hand edits: append to newest file, remove oldest file, add a file, drop the last sum line, rename newest file}: a writer command must refuse a directory whose sum does not match and leave it untouched, must leave a valid directory otherwise; in every reached state `migrate validate` and `migrate apply` (fresh database) must succeed iff the directory was not edited since atlas last wrote or re-hashed it, and the CLI must agree with migrate.Validate(LocalDir); an edited directory handed over as a state source (`schema inspect --url file://dir`, absolute and relative URL) must be refused too; (4) `migrate import` from hand-written source directories of the 5 third-party formats x version sets (digit boundaries 9/10/11, 1/2/10, zero-padded; flyway also with a repeatable, a baseline and an undo file, and with a file in a sub-directory of a directory that lives below a hidden directory): the written directory must validate and hold the statement of every step exactly once; non-trivial = tampered directory the model calls material; distinct = (state, edit)", depth, tamperDepth, map[bool]string{false: "bit flip, newline, space", true: "all 255 other values"}[full])
 	r.Assumptions = []string{
 		"material = the ordered list of *.sql files (name, bytes; bytes replaced by a marker for files whose first line carries atlas:sum ignore) changed, or atlas.sum changed other than in ASCII white space (space, tab, CR, VT, FF) or its final newline; immaterial edits of sum-ignored bodies and whitespace-only sum edits are counted, not judged",
 		"any of ErrChecksumMismatch / ErrChecksumFormat / ErrChecksumNotFound counts as a checksum error",
